@@ -10,6 +10,8 @@ GENS = [
     (5, dict(bad_rate=0.25, inplace_rate=0.0, fail_rate=0.2)),
     (2, dict(bad_rate=0.1, inplace_rate=0.0, fail_rate=0.0, n_ops=8)),
     (1, dict(bad_rate=0.3, inplace_rate=0.3, fail_rate=0.3, flavour="frozen")),
+    # a plain (undecorated) subclass overriding defaults by class attributes
+    (1, dict(bad_rate=0.2, inplace_rate=0.0, fail_rate=0.2, flavour="plain")),
     # Union[int, str] and Optional[spec] attributes
     (1, dict(bad_rate=0.25, inplace_rate=0.0, fail_rate=0.2, flavour="wide")),
     # existing instances handed over together with nested keywords / attribute transforms
